@@ -255,7 +255,16 @@ func asString(t iterator, v interface{}) string {
 		}
 		return "false"
 	case float64:
-		return strconv.FormatFloat(v, 'g', -1, 64)
+		// XPath 1.0 writes numbers without an exponent.
+		switch {
+		case v == 0:
+			return "0"
+		case math.IsInf(v, 1):
+			return "Infinity"
+		case math.IsInf(v, -1):
+			return "-Infinity"
+		}
+		return strconv.FormatFloat(v, 'f', -1, 64)
 	case string:
 		return v
 	case query:
